@@ -153,6 +153,9 @@ func (in *Interp) callSSA(fn *ssa.Function, args []Value, env []Value) Value {
 			return r
 		}
 	}
+	if fn.Name() == "init" && fn.Pkg != nil && !in.isRepoPkg(fn.Pkg) && fn.Signature.Recv() == nil {
+		return nil // initialisers of other modules are not run (DESIGN 2.3)
+	}
 	if fn.Blocks == nil {
 		in.unsupported("external function " + name)
 	}
@@ -969,6 +972,7 @@ func (in *Interp) conv(dst, src types.Type, x Value) Value {
 		case t.Sort.K == term.KInt && ds.K == term.KFloat:
 			return term.I2F(ds, t)
 		case t.Sort.K == term.KFloat && ds.K == term.KInt:
+			debugf("f2i: %s%s", t, in.where())
 			return term.F2I(ds, t)
 		case t.Sort.K == term.KFloat && ds.K == term.KFloat:
 			return term.FConv(ds, t)
